@@ -132,7 +132,10 @@ def _jsonable(o):
 def run_property(mod, tier='quick', seed=0):
     t_start = time.time()
     prop = mod.PROPERTY
-    os.makedirs(os.path.join(VERIF, 'evidence'), exist_ok=True)
+    # evidence describes /repo itself: a run against any other tree (PANQEC_REPO=<scratch worktree>, used for mutation experiments) writes elsewhere
+    repo_real = os.path.realpath(os.environ.get('PANQEC_REPO', '/repo'))
+    ev_dir = os.environ.get('VERIF_EVIDENCE_DIR') or (os.path.join(VERIF, 'evidence') if repo_real == os.path.realpath('/repo') else os.path.join(VERIF, '.scratch', 'evidence'))
+    os.makedirs(ev_dir, exist_ok=True)
     os.makedirs(os.path.join(VERIF, 'replays'), exist_ok=True)
     violations, known_hits, notes = [], [], []
     # ---------------- deductive part
@@ -284,7 +287,7 @@ def run_property(mod, tier='quick', seed=0):
         'assumptions': list(getattr(mod, 'ASSUMPTIONS', [])) + ['transparent helper unfolded at call sites: ' + t for t in transparent],
         'wall_s': round(time.time() - t_start, 2), 'violations': len(violations),
     }
-    with open(os.path.join(VERIF, 'evidence', '%s.json' % prop), 'w') as f:
+    with open(os.path.join(ev_dir, '%s.json' % prop), 'w') as f:
         json.dump(_jsonable(ev), f, indent=1, default=str)
     print('%s tier=%s obligations=%d discharged=%d refuted=%d lost=%d bounded_evals=%s known=%d violations=%d wall=%.1fs' % (
         prop, tier, n_ob, len(discharged), len(refuted), len(lost), (bounded or {}).get('evaluations'), len(seen_known),
